@@ -15,7 +15,7 @@ uint32_t g_popser;    /* serial of the element a pop removes (pre-state) */
 /* watched slot of the receiver + slot invariant instantiated there + pre-state constants */
 #define RB_WATCH(s) (g_wobj == OBJ((s)->m_data) && g_wp < (s)->m_capacity && \
     g_dtor_calls == 0 && g_ctor_calls == 0 && g_asgn_calls == 0 && !g_reloc && g_reloc_count == 0 && !g_freed_w && \
-    g_allocs == 0 && g_frees == 0 && \
+    g_allocs == 0 && g_frees == 0 && g_reallocs == 0 && !g_watch_new && \
     g_pos0 == (s)->m_pos && g_size0 == (s)->m_size && g_cap0 == (s)->m_capacity && \
     g_wl == LOGI((s)->m_pos, g_wp, (s)->m_capacity) && g_wser == (s)->m_data[g_wp].serial && \
     SLOT_INV(s))
@@ -24,5 +24,16 @@ uint32_t g_popser;    /* serial of the element a pop removes (pre-state) */
                                                                               : (s)->m_data[g_wp].life != LIVE)
 #define ELEM_AT(s, k) ((s)->m_data[PHYS((s)->m_pos, k, (s)->m_capacity)])
 #define RB_ASSIGNS_INPLACE(s) (s)->m_pos, (s)->m_size, __CPROVER_object_whole((s)->m_data), GHOST_ELEM
+/* a receiver that is raw storage about to be constructed; the watched slot is in the buffer it will allocate */
+#define RB_GHOST_ZERO (g_dtor_calls == 0 && g_ctor_calls == 0 && g_asgn_calls == 0 && !g_reloc && g_reloc_count == 0 && \
+                       !g_freed_w && g_allocs == 0 && g_frees == 0 && g_reallocs == 0)
+#define RB_NEW_WATCH (g_watch_new && g_np == g_wp && g_dtor_calls == 0 && g_ctor_calls == 0 && g_asgn_calls == 0 && !g_reloc && \
+                      g_reloc_count == 0 && !g_freed_w && g_allocs == 0 && g_frees == 0 && g_reallocs == 0)
+/* moved-from state: owns nothing; only destruction and assignment-to are valid */
+#define RB_HOLLOW(s) ((s)->m_capacity == 0 && (s)->m_size == 0 && (s)->m_data == 0)
+#define MINZ(a, b) ((a) < (b) ? (a) : (b))
 #define NO_ALLOC (g_allocs == 0 && g_frees == 0 && !g_freed_w)
+
+uint32_t g_kser;
+ssize_t g_a_pos, g_b_pos; size_t g_a_size, g_b_size, g_a_cap, g_b_cap, g_a_data, g_b_data;
 #endif
